@@ -515,6 +515,13 @@ def getter_expr(body, facts, depth):
     res = None
     if body.kind in ("fn", "assoc_fn") and not has_effects(body) and len(body.blocks) <= 6:
         ok = True
+        # a getter projects / compares / masks; a function that does arithmetic (offset_from, get_vec_pos) is kept
+        # as a named call, so that expression trees are the same with and without overflow checks
+        for blk in body.blocks:
+            for st in blk["stmts"]:
+                if st["k"] == "assign" and st["rv"]["k"] == "bin" and st["rv"]["op"].replace("WithOverflow", "").replace("Unchecked", "") in (
+                        "Add", "Sub", "Mul", "Div", "Rem", "Shl", "Shr"):
+                    ok = False
         for _, t in body.terms():
             if t["k"] == "call":
                 fn = callee(t)
@@ -620,10 +627,15 @@ def edge_conditions(body, facts=None, inline=True):
         if t["k"] == "switch":
             c = eb.operand(t["discr"], loc)
             vals = [v for v, _ in t["targets"]]
+            isbool = t["discr_ty"] == "bool"
+            is_int = t["discr_ty"] in ("usize", "u8", "u16", "u32", "u64", "u128", "isize", "i8", "i16", "i32", "i64", "i128")
             for v, dst in t["targets"]:
-                out.append((bi, dst, c, ("eq", v)))
-            if t["discr_ty"] == "bool" and len(vals) == 1:
+                out.append((bi, dst, c, ("eq", v) if not is_int else ("eqint", v)))
+            if isbool and len(vals) == 1:
                 out.append((bi, t["otherwise"], c, ("eq", 1 - vals[0])))
+            elif is_int:
+                # `match x { C => .., _ => .. }` on an integer: the fall-through edge knows x != C for every listed C
+                out.append((bi, t["otherwise"], c, ("neint", tuple(vals))))
             else:
                 out.append((bi, t["otherwise"], c, ("notin", tuple(vals))))
         elif t["k"] == "assert":
@@ -633,7 +645,7 @@ def edge_conditions(body, facts=None, inline=True):
     return out
 
 
-def guards_at(body, bb, facts=None, inline=True):
+def guards_at(body, bb, facts=None, inline=True, _depth=0):
     """edge conditions that hold whenever block bb is entered: edges (s->d) such that d dominates bb
     and every normal predecessor of d other than s is itself dominated by d (loop back-edges)."""
     cfg = cfg_of(body)
@@ -658,13 +670,76 @@ def guards_at(body, bb, facts=None, inline=True):
                 ok = False
         if ok:
             res.append((s, d, c, v))
-    return res
+    return expand_short_circuit(body, facts, inline, res, _depth)
+
+
+def expand_short_circuit(body, facts, inline, guards, depth=0):
+    """`let ok = a && b && c; if ok {..}` lowers to a bool local with several definitions: `const false` on the
+    short-circuit edges and the last conjunct on the full path. Knowing ok == true therefore implies every
+    fact that dominates the one non-constant definition, plus that definition's own condition (dually for
+    `||` and ok == false)."""
+    if depth > 3:
+        return guards
+    out = list(guards)
+    defs = defs_of(body)
+    for (s, d, c, v) in guards:
+        if v[0] != "eq":
+            continue
+        t = body.blocks[s]["term"]
+        if t["k"] != "switch" or t["discr_ty"] != "bool":
+            continue
+        op = t["discr"]
+        if op["k"] not in ("copy", "move") or op["pl"]["p"]:
+            continue
+        l = op["pl"]["l"]
+        for _ in range(6):
+            ds = defs.get(l, [])
+            if len(ds) == 1 and ds[0][2] == "assign" and ds[0][3]["k"] == "use" and ds[0][3]["op"]["k"] in ("copy", "move") \
+                    and not ds[0][3]["op"]["pl"]["p"]:
+                l = ds[0][3]["op"]["pl"]["l"]
+                continue
+            break
+        ds = defs.get(l, [])
+        if len(ds) < 2:
+            continue
+        want = v[1]
+        live = []
+        for dd in ds:
+            if dd[2] == "assign" and dd[3]["k"] == "use" and dd[3]["op"]["k"] == "const" and "v" in dd[3]["op"]:
+                if dd[3]["op"]["v"] == want:
+                    live.append(dd)      # a constant definition that already has the wanted value: nothing learned from it
+                continue
+            live.append(dd)
+        consts_wanted = [dd for dd in live if dd[2] == "assign" and dd[3]["k"] == "use" and dd[3]["op"]["k"] == "const"]
+        nonconst = [dd for dd in live if dd not in consts_wanted]
+        if consts_wanted or len(nonconst) != 1:
+            continue
+        dd = nonconst[0]
+        # facts that hold where the deciding definition executes
+        inner = guards_at(body, dd[0], facts, inline, _depth=depth + 1)
+        out.extend(g for g in inner if g not in out)
+        if dd[2] == "assign":
+            eb = ExprBuilder(body, facts or body.facts, inline=inline)
+            e = eb.rvalue(dd[3], (dd[0], dd[1]), 0)
+            out.append((dd[0], dd[0], e, ("eq", want)))
+    return out
 
 
 def normalize_cmp(c, v):
     """turn (cond_expr, ('eq', value)) into a relation tuple (rel, A, B) with rel in
     {'lt','le','eq','ne'} (A rel B), or ('truth', expr, value). Handles negation of comparisons,
     `Not`, and `Cmp`-less bool tests."""
+    is_discr = isinstance(c, tuple) and c and c[0] == "discr"
+    if v[0] == "eqint":
+        if is_discr:
+            return ("truth", c, v[1])
+        return ("eq", c, ("const", v[1]))
+    if v[0] == "neint":
+        if is_discr:
+            return ("notin", c, v[1])
+        if len(v[1]) == 1:
+            return ("ne", c, ("const", v[1][0]))
+        return ("notin", c, v[1])
     if v[0] != "eq":
         return ("notin", c, v[1])
     val = v[1]
